@@ -4,6 +4,7 @@ Monitor: set-algebra oracle on the inputs for range, identity, disjointness, bit
 (slack 2^-22, sum in double), width invariance and strict decrease when a new common k-mer is added."""
 
 import itertools
+import sys
 import random
 
 import numpy as np
@@ -122,6 +123,25 @@ def run_shard(sh, ctx):
 				i, j = np.argwhere(T != base)[0]
 				ctx.violation('width-dependent', f'd differs between widths {wa}/{wb} and {sh["widths"][0]}: {T[i, j]!r} vs {base[i, j]!r}',
 				              dict(A=sorted(subsets[i]), B=sorted(subsets[j]), widths=[wa, wb]))
+		# the same sets stored in the other byte order (what a file written on another platform hands out): either refused, or the same
+		# distance - never another value
+		for wa in sh['widths']:
+			dsw = np.dtype(wa).newbyteorder('>' if np.dtype(wa).byteorder in ('<', '=') and sys.byteorder == 'little' else '<')
+			if np.dtype(wa).itemsize == 1:
+				continue
+			for i in range(n):
+				a_sw = arrs[wa][i].astype(dsw)
+				for j in range(n):
+					for x, y in ((a_sw, arrs[wa][j]), (arrs[wa][j], a_sw)):
+						try:
+							v = _d(gm, x, y)
+						except Exception:
+							ctx.count('foreign_byte_order_refused')
+							continue
+						ctx.count('foreign_byte_order_accepted')
+						if v != base[i, j]:
+							ctx.violation('byte-order-dependent', f'd of the same sets is {v!r} when one of them is stored as {dsw.str}, {base[i, j]!r} natively',
+							              dict(A=sorted(subsets[i]), B=sorted(subsets[j]), dtype=dsw.str))
 		# the same metric properties for the distance as reported by the bulk entry points (list-backed and concatenated references)
 		from gambit.sigs.base import SignatureArray, SignatureList
 		w0 = sh['widths'][0]
